@@ -10,4 +10,8 @@ check("C11", "exhaustive enumeration of bounded token/byte sequences and file mu
       "All fragment sequences up to a length bound over closed alphabets, in all three modes, plus all single token/byte mutations of every repository .py file and size-limit programs, are compiled by the real pipeline; each result must be a code object or a located SyntaxError. Exhaustive within the printed bounds.",
       "totality over all byte strings is approximated by the closed alphabets and length bounds; hang detection is a 150 s no-progress watchdog",
       "DESIGN.md section 4 C11")
+check("C07", "exhaustive enumeration of a boundary operand lattice against a math/big reference model, via Go API (both representations) and compiled source",
+      "All ordered pairs (triples for pow) of a boundary lattice around 0, 2^7..2^192, floor(2^31.5), IntMax/IntMin with +-3 neighbours x every integer operator, shift, power, unary form and text conversion, executed through the Go API with operands in machine-word and forced arbitrary-precision representation and as compiled source text, compared value-for-value with math/big. Exhaustive over the lattice.",
+      "math/big is trusted; operands outside the lattice are not covered (the property's 'seeded random operands' are replaced by a larger exhaustive lattice)",
+      "DESIGN.md section 4 C07")
 ENGINES[0]["serves_properties"] = sorted(CHECKS.keys())
